@@ -138,9 +138,14 @@ def run_case(c):
     analysis = ScriptAnalysis(c["model"], c["script"])
     fl = c["flags"]
     cls = FitnessPySwarms if c["ps"] else Fitness
-    fitness = cls(model=root, analysis=analysis, fom_is_log_likelihood=fl["like"],
-                  resample_figure_of_merit=unhex(c["resample"]), convert_to_chi_squared=fl["chi2"],
-                  store_history=fl["store"])
+    kw = dict(fom_is_log_likelihood=fl["like"], resample_figure_of_merit=unhex(c["resample"]),
+              convert_to_chi_squared=fl["chi2"], store_history=fl["store"])
+    if c.get("defaults"):
+        # rely on the documented constructor defaults wherever the case asks for exactly those
+        documented = dict(fom_is_log_likelihood=True, resample_figure_of_merit=-np.inf,
+                          convert_to_chi_squared=False, store_history=False)
+        kw = {k: v for k, v in kw.items() if v != documented[k]}
+    fitness = cls(model=root, analysis=analysis, **kw)
 
     def mkbuf(vals):
         vals = [unhex(x) for x in vals]
